@@ -2,7 +2,8 @@ package vault
 
 // C19 — a use limit is only ever attached to a token that can enforce it. Batch tokens are not persisted and their
 // encrypted form carries no use count, so a batch token reported with num_uses = n would authorise any number of
-// requests. The real handleCreateCommon (request side and role side) must refuse the combination.
+// requests. The real handleCreateCommon (request side and role side) must refuse the combination. And a use-limited
+// token (any positive use count, any endpoint - create, create-orphan, orphan role, no_parent) never mints a token.
 //
 //vx:pkg github.com/openbao/openbao/v2/internal/vault
 //vx:assume same stubs as harness/C07/create.go
@@ -26,13 +27,20 @@ func VxUseLimitNeverOnBatchTokens() {
 		role.TokenType = []logical.TokenType{logical.TokenTypeDefault, logical.TokenTypeService, logical.TokenTypeBatch, logical.TokenTypeDefaultBatch}[vxChoose("role token type", 4)]
 	}
 	req := &logical.Request{ClientToken: "parent", Path: "create", MountPoint: "auth/token/"}
-	resp, _ := ts.handleCreateCommon(vxCtx(namespace.RootNamespace), req, &framework.FieldData{Raw: r.raw}, false, role)
+	orphanEndpoint := vxBool("create-orphan endpoint")
+	resp, _ := ts.handleCreateCommon(vxCtx(namespace.RootNamespace), req, &framework.FieldData{Raw: r.raw}, orphanEndpoint, role)
 	if vxCreates == 0 {
 		vxReach("use limit: creation refused")
 		return
 	}
 	vxReach("use limit: token created")
 	te := vxCreated
+	// a use-limited token spends its uses on requests; it must never be able to turn one of them into a token that is
+	// not bound by the limit - whatever the endpoint (create, create-orphan, role with orphan=true, no_parent)
+	vxAssert("a use-limited token never mints a token (child or orphan)", vxParent.NumUses <= 0)
+	if te.Parent == "" {
+		vxReach("use limit: orphan token created")
+	}
 	vxAssert("a batch token is never created with a use limit (it could not be enforced)", !(te.Type == logical.TokenTypeBatch && te.NumUses != 0))
 	vxAssert("the use limit reported to the requester is the one stored", resp != nil && resp.Auth != nil && resp.Auth.NumUses == te.NumUses)
 	if te.Type == logical.TokenTypeBatch {
